@@ -382,6 +382,98 @@ static void value_case(char* s) {
   P(" nv=%d", va.n + vb.n);
 }
 
+/* ------------------------------------------------------------------ value histories (in-place mutation)
+ * W <term> <op>=<term> <op>=<term> ...     the object built from the first term is mutated in place;
+ * after each op its value must be the term on the right of '=' (computed by the generator).
+ *   a<term> assign(obj, term)      String: r<hex> rem substring, p<hex> append, z<n> resize(n)
+ *   Array/List/Tuple: u<term> push, o pop, s<i>,<term> set(obj, i, term)
+ *   Table/Tree: s<k>:<v> set, r<k> rem
+ * Per step (separated by " | "):  h=<hash(obj) taken IMMEDIATELY after the mutation, no other hash call
+ * in between, the object was hashed right before the mutation>  own=<ok|STALE|na: String/Int/Float — the
+ * harness's own hash_data over the current bytes / the value>  fr=<ok|flags: a fresh object built from the
+ * expected term hashes like h [f], hash(obj) asked again after that still gives h [o], eq both ways [e,E]>
+ * ab=<ok|STALE|na: String — the fresh object is freed, another String of the same length and other
+ * contents is allocated (it usually gets the same buffer) and must hash as its own bytes> */
+static int own_hash(var obj, uint64_t h) {
+  var ty = type_of(obj);
+  if (ty is String) { char* c = c_str(obj); return hash_data(c, strlen(c)) == h ? 1 : 0; }
+  if (ty is Int) return (uint64_t)c_int(obj) == h ? 1 : 0;
+  if (ty is Float) { double d = c_float(obj); uint64_t b; if (d == 0.0) d = 0.0; memcpy(&b, &d, 8); return b == h ? 1 : 0; }
+  return -1;
+}
+
+static void observe(var obj, uint64_t h1, Term* expect, int first) {
+  uint64_t hf = 0, h3 = 0;
+  if (!first) P(" | ");
+  P("h=%" PRIu64, h1);
+  int own = own_hash(obj, h1);
+  P(" own=%s", own < 0 ? "na" : own ? "ok" : "STALE");
+  char fl[8]; int k = 0;
+  volatile var ex = NULL;
+  try { ex = build(expect, 0); } catch (e) { ex = NULL; }
+  if (!ex) { P(" fr=BUILD-RAISED ab=na"); return; }
+  hf = hash((var)ex); h3 = hash(obj);              /* direct calls: an exception frame would hash a String */
+  if (hf != h1) fl[k++] = 'f';
+  if (h3 != h1) fl[k++] = 'o';
+  if (eq_s(obj, ex) != 1) fl[k++] = 'e';
+  if (eq_s(ex, obj) != 1) fl[k++] = 'E';
+  fl[k] = 0;
+  P(" fr=%s", k ? fl : "ok");
+  if (type_of(obj) is String) {
+    /* address reuse: free the fresh String right after it was hashed, allocate another of the same size */
+    char* c = c_str(ex); size_t n = strlen(c);
+    char* other = malloc(n + 2); memcpy(other, c, n + 1);
+    if (n == 0) { other[0] = 'x'; other[1] = 0; } else other[0] = (char)(other[0] == 'q' ? 'r' : 'q');
+    uint64_t hx = hash((var)ex); (void)hx;
+    del_raw((var)ex);
+    var g = new_raw(String, $S(other));
+    uint64_t hg = hash(g);
+    P(" ab=%s", hg == hash_data(other, strlen(other)) ? "ok" : "STALE");
+  } else P(" ab=na");
+}
+
+static void history_case(char* s) {
+  char* tok = next_tok(&s, ' ');
+  if (!tok) { P("BADCASE"); return; }
+  char* q = tok; Term* t0 = parse(&q);
+  volatile var obj = NULL;
+  try { obj = build(t0, 0); } catch (e) { P("BUILD-RAISED %s", exn_name(e)); return; }
+  if (!obj) { P("BADCASE"); return; }
+  observe(obj, hash(obj), t0, 1);
+  /* NOTE no try/catch between the priming hash, the mutation and the hash after it: Cello's exception
+     frames look up thread-local storage in a Table keyed by a String, i.e. they hash another String.
+     The generator only emits operations that succeed; an uncaught exception ends the child (EXIT). */
+  while ((tok = next_tok(&s, ' ')) != NULL) {
+    if (!*tok) continue;
+    char* eqs = strchr(tok, '='); if (!eqs) { P(" | BADOP"); return; }
+    *eqs = 0; char* et = eqs + 1; Term* expect = parse(&et);
+    char* a = tok + 1;
+    var arg0 = NULL, arg1 = NULL; size_t zn = 0;
+    switch (tok[0]) {                            /* operands are built before the priming hash */
+      case 'a': case 'r': case 'p': case 'u': { Term* x = parse(&a); arg0 = build(x, 0); break; }
+      case 'z': zn = (size_t)strtoull(a, NULL, 10); break;
+      case 's': { Term* kx = parse(&a); if (*a == ':' || *a == ',') a++; Term* vx = parse(&a);
+                  arg0 = build(kx, 0); arg1 = build(vx, 0); break; }
+      case 'o': break;
+      default: P(" | BADOP"); return;
+    }
+    fflush(OUT);
+    uint64_t hp = hash((var)obj);                /* the object has just been hashed: a memo would now hold it */
+    (void)hp;
+    switch (tok[0]) {
+      case 'a': assign((var)obj, arg0); break;
+      case 'r': rem((var)obj, arg0); break;
+      case 'p': append((var)obj, arg0); break;
+      case 'z': resize((var)obj, zn); break;
+      case 'u': push((var)obj, arg0); break;
+      case 'o': pop((var)obj); break;
+      case 's': set((var)obj, arg0, arg1); break;
+    }
+    uint64_t h1 = hash((var)obj);                /* IMMEDIATELY after the mutation */
+    observe((var)obj, h1, expect, 0);
+  }
+}
+
 static void one_case(char* line) {
   stop(current(GC));          /* no collection in the middle of a case */
   if (line[0] == 'M' && line[1] == ' ') {
@@ -402,6 +494,7 @@ static void one_case(char* line) {
     return;
   }
   if (line[0] == 'V' && line[1] == ' ') { value_case(line + 2); return; }
+  if (line[0] == 'W' && line[1] == ' ') { history_case(line + 2); return; }
   P("BADCASE");
 }
 
